@@ -25,6 +25,30 @@ type HookT struct {
 	Before func(op, path string) Fault
 	// Now, when set, supplies the modification time given to every written file.
 	Now func() time.Time
+	// Overlay, when set, is consulted by ReadFile and Stat first: a simulated file that
+	// exists only in the run's model (content and modification time).
+	Overlay func(path string) (content []byte, mtime time.Time, ok bool)
+}
+
+type overlayInfo struct {
+	name string
+	size int64
+	mt   time.Time
+}
+
+func (o overlayInfo) Name() string        { return o.name }
+func (o overlayInfo) Size() int64         { return o.size }
+func (o overlayInfo) Mode() real.FileMode { return 0o644 }
+func (o overlayInfo) ModTime() time.Time  { return o.mt }
+func (o overlayInfo) IsDir() bool         { return false }
+func (o overlayInfo) Sys() any            { return nil }
+
+func overlay(path string) ([]byte, time.Time, bool) {
+	h := hook.Load()
+	if h == nil || h.Overlay == nil {
+		return nil, time.Time{}, false
+	}
+	return h.Overlay(path)
 }
 
 var hook atomic.Pointer[HookT]
@@ -48,6 +72,9 @@ func Stat(name string) (real.FileInfo, error) {
 	if f, _ := before("Stat", name); f.Kind == "eio" {
 		return nil, pathErr("stat", name, syscall.EIO)
 	}
+	if c, mt, ok := overlay(name); ok {
+		return overlayInfo{name: filepath.Base(name), size: int64(len(c)), mt: mt}, nil
+	}
 	return real.Stat(name)
 }
 
@@ -63,6 +90,9 @@ func ReadFile(name string) ([]byte, error) {
 	switch f.Kind {
 	case "eio":
 		return nil, pathErr("read", name, syscall.EIO)
+	}
+	if c, _, ok := overlay(name); ok {
+		return append([]byte(nil), c...), nil
 	}
 	return real.ReadFile(name)
 }
